@@ -97,7 +97,10 @@ ProgsCut ==
 (* ------------------------------ slice: not ------------------------------ *)
 NotInner == {Call(q1(X)), Call(r1(X)), Call(t1(X)), UnifyG(X, b), UnifyG(X, Y), Bip("equal", <<X, b>>),
              AndG(<<Call(q1(X)), Call(r1(X))>>), OrG(<<Call(q1(X)), Call(r1(X))>>), Bip("less_than", <<X, b>>),
-             AndG(<<Call(q1(Y)), UnifyG(Y, X)>>), Call(q1(Y)), AndG(<<pr(X), Call(r1(X))>>), NotG(Call(q1(X)))}
+             AndG(<<Call(q1(Y)), UnifyG(Y, X)>>), Call(q1(Y)), AndG(<<pr(X), Call(r1(X))>>), NotG(Call(q1(X))),
+             (* a conjunction whose first goal succeeds (binding an inner variable) but which fails as a whole *)
+             AndG(<<Call(q1(X)), Call(t1(X))>>), AndG(<<Call(q1(X)), FailG>>), AndG(<<Call(q1(Y)), Call(s2(Y, Y))>>),
+             AndG(<<UnifyG(X, b), FailG>>), OrG(<<AndG(<<Call(q1(X)), FailG>>), Call(t1(X))>>)}
 NotBodies ==
        {NotG(g) : g \in NotInner}
   \cup {AndG(<<l, NotG(g)>>) : l \in {Call(q1(X)), Call(r1(X)), UnifyG(X, c)}, g \in NotInner}
